@@ -1412,7 +1412,13 @@ class Stage:
         ret.parameters = deepcopy(self.parameters)
         ret.variables = deepcopy(self.variables)
 
-        ret._offsets = deepcopy(self._offsets)
+        ret._offsets = HashDict()
+        for k, (e, offset) in self._offsets.items():
+            ret._offsets[k] = (renew(e), offset)
+        for k, e in self._inf_inert.items():
+            ret._inf_inert[k] = renew(e)
+        for k, e in self._inf_der.items():
+            ret._inf_der[k] = renew(e)
         ret._param_vals = copy(self._param_vals)
         ret._state_der = HashDict()
         for k, v in self._state_der.items():
